@@ -109,6 +109,24 @@ func main() {
 	for l := 1; l <= 7; l++ {
 		rec(make([]byte, 0, 8), l)
 	}
+	// wide but shallow: long paths made of one repeated unit (every count up to 130: segment
+	// limits, fixed-size stacks, recursion depth), followed by each short climbing tail
+	var tails []string
+	for _, a := range []string{"", "..", "../..", "../../..", "a", "a/..", "../a", "./..", "..//..", "/..", "x/../../.."} {
+		tails = append(tails, a, a+"/", a+"/etc")
+	}
+	for _, unit := range []string{"/", "a/", "./", "../", "a/../", "//", "/./", "ab/"} {
+		for n := 1; n <= 130; n++ {
+			w := strings.Repeat(unit, n)
+			for _, t := range tails {
+				if strings.Contains(w+t, "..") {
+					climbers++
+				}
+				check(w + t)
+				check("/" + w + t)
+			}
+		}
+	}
 	for _, p := range []string{"%2e%2e/x", "..%2f", "a/../../../../../etc/passwd", "/..", "....//", "/a/b/../../../c", "\x00/..", "..\\..\\x"} {
 		check(p)
 	}
